@@ -34,6 +34,8 @@ pub enum Token<'i> {
     CloseCurlyBracket,
     CloseSquareBracket,
     CloseParenthesis,
+    Semicolon,
+    Comma,
     Other(u32),
 }
 /// the lifetime-free value of a token
@@ -41,7 +43,7 @@ pub enum TokV {
     Ident(Seq<char>), AtKeyword(Seq<char>), Function(Seq<char>), Delim(char),
     Dimension { has_sign: bool, value: f32, int_value: Option<i32>, unit: Seq<char> },
     WhiteSpace(Seq<char>), Comment(Seq<char>),
-    CurlyBracketBlock, SquareBracketBlock, ParenthesisBlock, CloseCurlyBracket, CloseSquareBracket, CloseParenthesis, Other(u32),
+    CurlyBracketBlock, SquareBracketBlock, ParenthesisBlock, CloseCurlyBracket, CloseSquareBracket, CloseParenthesis, Semicolon, Comma, Other(u32),
 }
 pub open spec fn tokv(t: Token) -> TokV {
     match t {
@@ -58,6 +60,8 @@ pub open spec fn tokv(t: Token) -> TokV {
         Token::CloseCurlyBracket => TokV::CloseCurlyBracket,
         Token::CloseSquareBracket => TokV::CloseSquareBracket,
         Token::CloseParenthesis => TokV::CloseParenthesis,
+        Token::Semicolon => TokV::Semicolon,
+        Token::Comma => TokV::Comma,
         Token::Other(k) => TokV::Other(k),
     }
 }
